@@ -168,8 +168,14 @@ def decode(code, forbidden):
             # alias needs a state defined in the same class body
             own = [m for m in case["members"][top] if m["kind"] in kinds]
             if own:
-                case["members"][top][-1]["of"] = own[0]["n"]
-                case["defect"] = ["alias", own[0]["n"]]
+                n0 = own[0]["n"]
+                # the second name stands in every textual relation to the state's own name (suffix, prefix, case variant, ...)
+                alias = ["other_name", "re" + n0, n0 + "_2", "_" + n0, n0[:-1], n0.upper(), "hold_" + n0, n0 + n0, "x" + n0[1:]][fname_c % 9]
+                if alias in NAMES or alias in forbidden:
+                    alias = "other_name"
+                case["members"][top][-1]["n"] = alias
+                case["members"][top][-1]["of"] = n0
+                case["defect"] = ["alias", n0]
             else:
                 case["members"][top].pop()
     elif defect_c == 13:
